@@ -19,9 +19,21 @@ helpers / closures / Option combinators expanded):
   R4 codec pair       Serialize = name ++ ":" ++ hex::encode(value) (format! or String building, text normal form),
                       Deserialize = String -> parse;
                       Display for Inventory = toml::to_string, FromStr = toml::from_str
-  R5 digest impls     Sha256 <-> "sha256" / output_size(); Sha512 <-> "sha512" / output_size()
+  R5 digest impls     Sha256 <-> "sha256" / output_size(); Sha512 <-> "sha512" / output_size(); the impl with the name
+                      "shaN" is the one for sha2's N-bit hasher and output_size() is that of the impl's own type
+  R3 (deepened)       parts: accepted name = text before the first ':' unchanged, value = hex::decode(text after it),
+                      and the compatibility tests look at exactly these; exact: the accepting paths depend on nothing
+                      but split_once / hex::decode / name_compatible / length_compatible
+  R4 (deepened)       data flow: Deserialize succeeds with parse(String::deserialize(d)) only, Inventory::from_str with
+                      toml::from_str(s) only, Display writes toml::to_string(self) and nothing else
+  R6 serde schema     generated Serialize / Deserialize of Inventory, Artifact, Os, Arch are symmetric (same keys for
+                      the same fields / variants, nothing left out that the reader cannot restore)
+  R7 push             Inventory::push appends its argument to self.artifacts on every path and does nothing else to it
+  R8 adapters         the blanket ArtifactRequirement impl delegates to VersionRequirement::satisfies and accepts all
+                      metadata; the semver adapter is VersionReq::matches
 Not decided: maximality for unlawful PartialOrd impls; TOML round-trip equality (toml, hex crates).
 """
+import re
 from . import C18_helpers as H
 from .lib.paths import strip
 from .lib.value import canon, vstr, walk
@@ -37,7 +49,9 @@ def _none_opt(v):
 def run(ctx, rep):
     prog, sl = ctx.prog, ctx.slicer
     for r, d in (('R1', 'resolve / partial_resolve use the same four-way filter'), ('R2', 'selection: max_by_key(.version) / partial fold table'),
-                 ('R3', 'checksum accepted only with compatible name and length'), ('R4', 'checksum and inventory codec pairs'), ('R5', 'Sha256/Sha512 digest descriptors')):
+                 ('R3', 'checksum accepted only with compatible name and length'), ('R4', 'checksum and inventory codec pairs'), ('R5', 'Sha256/Sha512 digest descriptors'),
+                 ('R6', 'derived serde schemas of Inventory / Artifact / Os / Arch are symmetric'), ('R7', 'push appends to self.artifacts'),
+                 ('R8', 'requirement adapters delegate unchanged')):
         rep.rule(r, d)
     rep.not_decided = ['maximality under unlawful PartialOrd implementations', 'TOML / hex round-trip equality (toml, hex crates)']
     res = prog.find_one(INV + r'resolve$')
@@ -145,6 +159,15 @@ def run(ctx, rep):
     dec_ok = bool(failed) and all(k == 'err' and p is not None and inv(strip(p)) and any(y[0] == 'unwrap_err' and canon(y[1]) == s for y in walk(p)) for k, p, s in failed)
     dec_ok = dec_ok and bool(vals) and all(any(z[0] == 'call' and z[1] == 'hex::decode' for z in walk(v)) for v in vals)
     rep.check(dec_ok, 'R3', 'hex-error', w(fs), 'hex decode error mapped to InvalidValue and propagated', 'hex decode error is not propagated as InvalidValue' + giveup)
+    # the accepted parts are the split parts themselves (no trimming / case folding / re-slicing on the way), and the
+    # compatibility tests look at them
+    pp = H.acceptor_parts(sl, fs, oks) if oks else ['no Ok outcome']
+    rep.check(not pp and not giveup, 'R3', 'parts', w(fs), 'name = text before the first colon, value = hex::decode(text after it); the tests look at these',
+              'accepted checksum is not made of the split parts: %s%s' % ('; '.join(pp[:3]), giveup))
+    # "exactly when": acceptance depends on the four conditions and on nothing else
+    ex = H.acceptor_extra_conditions(fs, oks) if oks else ['no Ok outcome']
+    rep.check(not ex and not giveup, 'R3', 'exact', w(fs), 'accepting paths depend only on split_once / hex::decode / name_compatible / length_compatible',
+              'acceptance also depends on: %s%s' % ('; '.join(ex[:3]), giveup))
     # ---- R4 ------------------------------------------------------------------------------------------
     se = prog.find(r'^<%sChecksum<D> as .*Serialize>::serialize$' % CK.replace('::', '::'))
     ok = len(se) == 1
@@ -180,6 +203,111 @@ def run(ctx, rep):
             if v[0] == 'call' and v[1].endswith('::eq') and strip(v[2][1]) == ('const', name):
                 lc = prog.fns.get(f.path[:-len('name_compatible')] + 'length_compatible')
                 lv = strip(sl.local(lc, 0)) if lc else ('unknown',)
-                found = lv[0] == 'bin' and lv[1] == 'Eq' and strip(lv[2])[0] == 'param' and strip(lv[3])[0] == 'call' and strip(lv[3])[1].endswith('output_size')
+                # `len == size` and `size == len` are the same test
+                sides = [(lv[2], lv[3]), (lv[3], lv[2])] if lv[0] == 'bin' and lv[1] == 'Eq' else []
+                found = any(strip(a)[0] == 'param' and strip(b)[0] == 'call' and strip(b)[1].endswith('output_size') for a, b in sides)
                 rep.analysed(f)
         rep.check(found, 'R5', name, 'libherokubuildpack/src/inventory/sha2.rs', '"%s" with its digest\'s output_size()' % name, 'no Digest impl pairing "%s" with output_size()' % name)
+        # the impl that answers to "shaN" is the one for sha2's N-bit hasher, and the size it compares with is the
+        # output size of its own type (Self::output_size(), <Sha256 as OutputSizeUser>::output_size(), a macro
+        # parameter .. all resolve to the same callee type)
+        bits = name[3:]
+        mine = [f for f in nc if strip(sl.local(f, 0))[0] == 'call' and strip(strip(sl.local(f, 0))[2][1]) == ('const', name)]
+        ok, why = len(mine) == 1, '%d impls answer to "%s"' % (len(mine), name)
+        if ok:
+            m = re.search(r'Digest for (.*)>::name_compatible$', mine[0].path)
+            selfty = m.group(1) if m else ''
+            lc = prog.fns.get(mine[0].path[:-len('name_compatible')] + 'length_compatible')
+            sizes = [c for c in (lc.calls if lc else ()) if (c.decl or c.name or '').endswith('::output_size')]
+            ok = ('Sha%sVarCore' % bits) in selfty and bool(sizes) and all((c.full or '').startswith('<' + selfty + ' as ') for c in sizes)
+            why = '"%s" is answered by the impl for %s, which compares with %s' % (name, selfty[:60] + '..', [(c.full or c.name)[:80] for c in sizes])
+        rep.check(ok, 'R5', name + '/own-size', 'libherokubuildpack/src/inventory/sha2.rs', '"%s" belongs to the %s-bit hasher and compares with its own output size' % (name, bits), why)
+    # ---- R4 (data flow) --------------------------------------------------------------------------------
+    if len(de) == 1:
+        str_de = lambda n: n.endswith("Deserialize<'de> for std::string::String>::deserialize")
+        arg_ok = lambda args: len(args) == 1 and strip(args[0])[0] == 'call' and str_de(strip(args[0])[1]) and len(strip(args[0])[2]) == 1 and H.is_param(strip(args[0])[2][0], de[0], 0)
+        ok, why = H.flow_through(prog, sl, de[0], lambda n: n in ('core::str::<impl str>::parse', 'std::str::FromStr::from_str') or n.endswith(' as std::str::FromStr>::from_str'), arg_ok)
+        (rep.unproven if ok is None else (lambda *a: rep.check(ok, *a[:3], 'deserialize = parse(String::deserialize(d)), failing when parse fails', a[3])))(
+            'R4', 'checksum/deserialize-flow', w(de[0]), 'Checksum::deserialize does not hand the deserialised string unchanged to parse: ' + why)
+    if len(fr) == 1:
+        ok, why = H.flow_through(prog, sl, fr[0], lambda n: n in ('toml::from_str', 'toml::de::from_str'), lambda args: len(args) == 1 and H.is_param(args[0], fr[0], 0))
+        (rep.unproven if ok is None else (lambda *a: rep.check(ok, *a[:3], 'from_str = toml::from_str(s), failing when it fails', a[3])))(
+            'R4', 'inventory/parse-flow', w(fr[0]), 'Inventory::from_str does not parse its argument unchanged: ' + why)
+    if len(disp) == 1:
+        from .lib.effects import Effects
+        WR = {"std::fmt::Formatter::<'a>::write_str": ('WRITE', 0), "std::fmt::Formatter::<'a>::write_fmt": ('WRITE', 0), "std::fmt::Formatter::<'a>::pad": ('WRITE', 0),
+              "std::fmt::Formatter::<'a>::write_char": ('WRITE', 0), 'std::fmt::Write::write_str': ('WRITE', 0), 'std::fmt::Write::write_fmt': ('WRITE', 0), 'std::fmt::Write::write_char': ('WRITE', 0)}
+        E = Effects(prog, sl, vocab=WR)
+        must = [e for e in E.expand(disp[0], 'must') if e.kind == 'WRITE']
+        may = [e for e in E.expand(disp[0], 'may') if e.kind == 'WRITE']
+        ok, why = len(must) == 1 and len(may) == 1 and not must[0].forall, '%d unconditional / %d possible writes to the formatter' % (len(must), len(may))
+        if ok:
+            e = must[0]
+            ps = H.text_parts(sl, sl.inline_deep(e.args[1])) if e.args and len(e.args) == 2 and not e.call.name.endswith('::pad') else []
+            t = strip(ps[0]) if len(ps) == 1 and not isinstance(ps[0], str) else ('unknown',)
+            ok = H.is_param(e.args[0], disp[0], 1) and t[0] == 'call' and t[1] == 'toml::to_string' and len(t[2]) == 1 and H.is_param(t[2][0], disp[0], 0)
+            why = 'writes %s' % [p if isinstance(p, str) else vstr(p)[:80] for p in ps]
+        rep.check(ok, 'R4', 'inventory/display-flow', w(disp[0]), 'Display writes toml::to_string(self), once, and nothing else', 'Inventory Display: ' + why)
+    # the data-flow obligations read values as they are assigned; `&mut self` methods applied to a local on the way
+    # (dedup_by, make_ascii_lowercase, truncate, retain, ..) change the data behind that reading: none may occur
+    for rule, subj, fl in (('R3', 'in-place', [fs]), ('R4', 'checksum/in-place', se[:1] + de[:1]), ('R4', 'inventory/in-place', fr[:1] + disp[:1])):
+        mut = [m for f in fl for m in H.inplace_mutations(prog, f)]
+        if mut or not fl:
+            rep.unproven(rule, subj, w(fl[0]) if fl else '-', 'data is changed in place, which the value normal form does not follow: %s' % '; '.join(mut[:3]))
+        else:
+            rep.holds(rule, subj, w(fl[0]), 'no local is changed in place between reading the input and returning the result')
+    # ---- R6 ------------------------------------------------------------------------------------------
+    for ty in ('libherokubuildpack::inventory::Inventory', 'libherokubuildpack::inventory::artifact::Artifact',
+               'libherokubuildpack::inventory::artifact::Os', 'libherokubuildpack::inventory::artifact::Arch'):
+        short = ty.split('::')[-1]
+        adt = prog.adts.get(ty)
+        where = '%s:%s' % (adt['file'], adt['line']) if adt else '-'
+        probs, unk = H.schema_problems(prog, sl, ty)
+        if probs:
+            rep.violated('R6', 'schema/' + short, where, '%s does not survive render + parse: %s' % (short, '; '.join(probs[:3])))
+        elif unk:
+            rep.unproven('R6', 'schema/' + short, where, 'schema of %s not understood: %s' % (short, '; '.join(unk[:3])))
+        else:
+            rep.holds('R6', 'schema/' + short, where, 'every field / variant is written under the key it is read back from; nothing is left out')
+    # ---- R7 ------------------------------------------------------------------------------------------
+    pu = prog.find(INV + r'push$')
+    if len(pu) != 1:
+        rep.unproven('R7', 'push', '-', 'Inventory::push not found')
+    else:
+        from .lib.effects import Effects
+        f = pu[0]
+        rep.analysed(f)
+        mine = lambda v: strip(v)[0] == 'field' and strip(v)[2] == 'artifacts' and H.is_param(strip(v)[1], f, 0)
+        E = Effects(prog, sl, vocab={'std::vec::Vec::<T, A>::push': ('APPEND', 0), 'std::vec::Vec::<T, A>::insert': ('APPEND', 0)})
+        must = [e for e in E.expand(f, 'must') if e.kind == 'APPEND' and e.path is not None and mine(e.path)]
+        ok = len(must) == 1 and not must[0].forall and H.is_param(must[0].args[-1], f, 1)
+        # nothing else happens to the collection (read-only uses are fine)
+        RO = ('::len', '::is_empty', '::iter', '::capacity', '::reserve', '::contains', '::as_slice', '::first', '::last', '::get')
+        other = sorted({c.name for g in [f] + prog.closures_of(f) for c in g.calls if not c.indirect and c.args and c.name and mine(sl.operand(g, c.args[0]))
+                        and not c.name.endswith(('::push', '::insert')) and not c.name.endswith(RO)}) if ok else []
+        if ok and other:
+            rep.unproven('R7', 'push', w(f), 'push also applies %s to self.artifacts' % other[:3])
+        else:
+            rep.check(ok, 'R7', 'push', w(f), 'push(artifact) appends artifact to self.artifacts on every path',
+                      'push does not always add its argument to self.artifacts (%d unconditional insertions)' % len(must))
+    # ---- R8 ------------------------------------------------------------------------------------------
+    VR = 'libherokubuildpack::inventory::version::'
+    bl = {m: prog.find(r'^<VR as %sArtifactRequirement<V, M>>::%s$' % (re.escape(VR), m)) for m in ('satisfies_version', 'satisfies_metadata')}
+    for m, fl in bl.items():
+        if len(fl) != 1:
+            rep.unproven('R8', 'blanket/' + m, '-', 'blanket ArtifactRequirement impl not found')
+            continue
+        f = fl[0]
+        rep.analysed(f)
+        v = strip(sl.inline_deep(sl.local(f, 0)))
+        if m == 'satisfies_metadata':
+            ok = v == ('const', True)
+        else:
+            ok = v[0] == 'call' and v[1].endswith('VersionRequirement::satisfies') and len(v[2]) == 2 and H.is_param(v[2][0], f, 0) and H.is_param(v[2][1], f, 1)
+        rep.check(ok, 'R8', 'blanket/' + m, w(f), 'a VersionRequirement accepts all metadata and the versions it is satisfied by',
+                  'blanket %s returns %s' % (m, vstr(v)[:100]))
+    for f in prog.find(r'<impl %sVersionRequirement<semver::Version> for semver::VersionReq>::satisfies$' % re.escape(VR)):
+        rep.analysed(f)
+        v = strip(sl.inline_deep(sl.local(f, 0)))
+        ok = v[0] == 'call' and v[1] == 'semver::VersionReq::matches' and len(v[2]) == 2 and H.is_param(v[2][0], f, 0) and H.is_param(v[2][1], f, 1)
+        rep.check(ok, 'R8', 'semver', w(f), 'the semver adapter is VersionReq::matches(self, version)', 'semver adapter returns %s' % vstr(v)[:120])
